@@ -27,15 +27,19 @@ const (
 
 func verifC14Tick(ctx context.Context) {
 	p := verifNewProcessor(0)
-	n := zzverif.Len("n", 1, 3)
-	p.gs = verifSet(zzverif.U32("gsidx"), verifRange(0, n)...)
+	n := zzverif.Len("n", 1, 3, 0) // 0: no guardian set learned yet (entries: operator injection, parked signatures)
+	gsIndex := zzverif.U32("gsidx")
+	if n > 0 {
+		p.gs = verifSet(gsIndex, verifRange(0, n)...)
+	}
 	k := verifMessage("m")
 	zzverif.Assume(!verifIsGov(k) && len(k.Payload) > 0)
-	v := verifVAAOf(k, p.gs.Index)
+	v := verifVAAOf(k, gsIndex)
 	dg := v.SigningMsg()
 	hash := "digest-key"
 
 	kind := zzverif.Len("kind", 0, 1, 2) // 0 observed on chain, 1 signatures only (never observed), 2 injected by the operator
+	zzverif.Assume(n > 0 || kind != 0)    // a chain message is not signed before a guardian set is known
 	fo := zzverif.Now()
 	s := &vaaState{firstObserved: fo, signatures: map[ethcommon.Address][]byte{}, source: "x",
 		submitted: zzverif.Bool("submitted"), settled: zzverif.Bool("settled"), retryCount: uint(zzverif.U32("retryCount"))}
@@ -62,7 +66,7 @@ func verifC14Tick(ctx context.Context) {
 	p.state.vaaSignatures[hash] = s
 	stored := zzverif.Len("stored", 0, 1) == 1
 	if stored {
-		w := verifVAAOf(k, p.gs.Index)
+		w := verifVAAOf(k, gsIndex)
 		ws := &vaa.Signature{Index: 0}
 		copy(ws.Signature[:], zzverif.Blob("storedsig", 65))
 		w.Signatures = []*vaa.Signature{ws}
